@@ -21,6 +21,7 @@ import (
 	"fmt"
 	"os"
 	"reflect"
+	"time"
 )
 
 type vndTapeT struct {
@@ -138,6 +139,9 @@ func vndIsNilPtr(x interface{}) bool {
 	return v.Kind() == reflect.Ptr && v.IsNil()
 }
 
+// vndAdvanceTime lets time pass beyond every pending timeout (symbolically: every time.After channel is ready).
+func vndAdvanceTime() { time.Sleep(150 * time.Millisecond) }
+
 func vndKnownHit(id string) {
 	vndLog = append(vndLog, "known:"+id)
 	vndKnownHits = append(vndKnownHits, id)
@@ -239,6 +243,12 @@ func (x *Exec) vnd(name string, args []Value) Value {
 		return nil
 	case "vndKnown":
 		return c.BoolC(x.openKnown[strArg(args[0])])
+	case "vndAdvanceTime":
+		for _, ch := range x.timerChans {
+			ch.Ready = c.True()
+		}
+		x.timeAdvanced++
+		return nil
 	case "vndLoopStepCRC16":
 		return x.loopStepCRC16(args)
 	case "vndDeepEqual":
